@@ -709,6 +709,10 @@ package engine
 //@   at-call NewException requires[copy-of-ball] a0 == b && !(b is Variable)
 //@   at-call InstantiationError requires[only-for-variable] b is Variable
 
+//@ func compile
+//@   trusted
+//@   modifies nothing
+
 //@ func Call
 //@   property C03
 //@   nosafety
